@@ -65,6 +65,8 @@ let cmd_c02 c =
   List.iter (fun (k, _, v) -> out k (s_value v)) pures;
   (match pure_of GetPlaquettes with
    | VPlaq (ps, _) ->
+     (* the boolean hypothesis of the plaquette-table theorems, on the model's own plaquette list *)
+     out "hyp" (s_bool (plaq_list_ok l ps));
      out "q_ap" (s_list (fun r -> match r with None -> "ERR" | Some x -> s_natlists x)
                    (all_q_adjacent_plaquettes l ps))
    | _ -> out "q_ap" "ERR");
